@@ -65,4 +65,68 @@ W make(R raw, long)
 {
     return static_cast<W>(raw);
 }
+// recording visitor for visit_children (C19): logs kind, schema id and value/address of every callback, stops at callback `stop_at`
+struct RecVisitor
+{
+    static constexpr unsigned CAP = 32;
+    unsigned long n;
+    unsigned long stop_at;
+    unsigned char kind[CAP];       // 1 field, 2 group, 3 data
+    unsigned short id[CAP];
+    std::uint64_t val[CAP];        // scalar fields: bit pattern
+    const char* ptr[CAP];          // view-like members: address
+
+    template<typename T>
+    auto value_of(T v, int) -> decltype(probe(v, 0), void())
+    {
+        val[n] = probe(v, 0);
+        ptr[n] = nullptr;
+    }
+    template<typename T>
+    void value_of(T v, long)
+    {
+        val[n] = 0;
+        ptr[n] = sbepp::addressof(v);
+    }
+    bool done()
+    {
+        n++;
+        return n == stop_at;
+    }
+    template<typename T, typename Tag>
+    bool on_field(T v, Tag)
+    {
+        kind[n] = 1;
+        id[n] = sbepp::field_traits<Tag>::id();
+        value_of(v, 0);
+        return done();
+    }
+    template<typename T, typename Cursor, typename Tag>
+    bool on_group(T g, Cursor& c, Tag)
+    {
+        kind[n] = 2;
+        id[n] = sbepp::group_traits<Tag>::id();
+        val[n] = 0;
+        ptr[n] = sbepp::addressof(g);
+        // consume the (flat) group so that the next member finds the cursor where it expects it
+        c.pointer() = sbepp::addressof(g) + sbepp::size_bytes(g);
+        return done();
+    }
+    template<typename T, typename Tag>
+    bool on_data(T d, Tag)
+    {
+        kind[n] = 3;
+        id[n] = sbepp::data_traits<Tag>::id();
+        val[n] = 0;
+        ptr[n] = sbepp::addressof(d);
+        return done();
+    }
+};
+
+struct VisitResult
+{
+    RecVisitor v;
+    bool stopped;
+    const char* cursor;
+};
 } // namespace sbv
